@@ -32,6 +32,11 @@ func minUint32(a, b uint32) uint32 {
 type Filter struct {
 	mtx           sync.Mutex
 	msgFilterLoad *wire.MsgFilterLoad
+
+	// updates counts the changes made to the loaded filter: every bit
+	// that add sets for the first time and every Reload or Unload.  Two
+	// equal readings mean that every query answers as it did before.
+	updates uint64
 }
 
 // NewFilter creates a new bloom filter instance, mainly to be used by SPV
@@ -100,6 +105,7 @@ func (bf *Filter) IsLoaded() bool {
 func (bf *Filter) Reload(filter *wire.MsgFilterLoad) {
 	bf.mtx.Lock()
 	bf.msgFilterLoad = filter
+	bf.updates++
 	bf.mtx.Unlock()
 }
 
@@ -109,6 +115,7 @@ func (bf *Filter) Reload(filter *wire.MsgFilterLoad) {
 func (bf *Filter) Unload() {
 	bf.mtx.Lock()
 	bf.msgFilterLoad = nil
+	bf.updates++
 	bf.mtx.Unlock()
 }
 
@@ -215,8 +222,21 @@ func (bf *Filter) add(data []byte) {
 	///  filter[arrayIndex] |= 1<<bitOffset
 	for i := uint32(0); i < bf.msgFilterLoad.HashFuncs; i++ {
 		idx := bf.hash(i, data)
-		bf.msgFilterLoad.Filter[idx>>3] |= (1 << (7 & idx))
+		if bf.msgFilterLoad.Filter[idx>>3]&(1<<(7&idx)) == 0 {
+			bf.msgFilterLoad.Filter[idx>>3] |= (1 << (7 & idx))
+			bf.updates++
+		}
 	}
+}
+
+// updateCount returns the number of changes made to the loaded filter so far.
+//
+// This function is safe for concurrent access.
+func (bf *Filter) updateCount() uint64 {
+	bf.mtx.Lock()
+	n := bf.updates
+	bf.mtx.Unlock()
+	return n
 }
 
 // Add adds the passed byte slice to the bloom filter.
